@@ -10,6 +10,7 @@ import (
 	"strconv"
 
 	"cedarverif/internal/core"
+	"cedarverif/internal/ltrace"
 	"cedarverif/internal/otrace"
 )
 
@@ -29,9 +30,27 @@ func otraceCmd(dir string) {
 	os.Exit(c.Finish())
 }
 
+// ltraceCmd validates a directory of hook traces against ConnLifecycle_Trace.
+func ltraceCmd(dir string) {
+	tmp, _ := os.MkdirTemp("", "cedarverif-")
+	defer os.RemoveAll(tmp)
+	c := core.NewCtx("ltrace", "quick", 1, "/verif", tmp, "x")
+	groups, err := ltrace.LoadDir(dir)
+	if err != nil {
+		fmt.Println(err)
+		os.Exit(2)
+	}
+	fmt.Printf("%d life-cycle groups\n", len(groups))
+	ltrace.Validate(c, groups, "dir", nil)
+	os.Exit(c.Finish())
+}
+
 func main() {
 	if len(os.Args) == 3 && os.Args[1] == "otrace" {
 		otraceCmd(os.Args[2])
+	}
+	if len(os.Args) == 3 && os.Args[1] == "ltrace" {
+		ltraceCmd(os.Args[2])
 	}
 	if len(os.Args) < 3 || os.Args[1] != "check" {
 		fmt.Fprintf(os.Stderr, "usage: verif check <id> [--tier quick|thorough] [--replay file]\nknown ids: %v\n", core.IDs())
